@@ -66,7 +66,10 @@ ASSUMPTIONS = [
     "secular rates are asserted for longitude_mean_ascending_node and longitude_mean_perigee "
     "(the true node oscillates by +-1.9 deg around the mean one)",
     "daily motion: geocentric_ecliptical_pos longitude one day later minus now, modulo 360",
-    "mutant 385000.56 -> 385000.65 (90 m) is below every stated tolerance: undetectable",
+    "sensitivity (mutants/C15.json, applied on top of fixes_proposed/C15-lunar-finders-lunation-count.diff, "
+    "quick tier): 19 of 21 caught; missed: 385000.56 -> 385000.65 (90 m, below every stated tolerance) "
+    "and taking the southern-declination count from the northern epoch (result up to one month from "
+    "the query, which the 1.6-month clause allows)",
 ]
 
 FINDERS = {
